@@ -296,73 +296,6 @@ theorem noNl_of_plain_digits {n : Nat} : NoNl (Location.itoa n) := fun c hc e =>
   revert this
   decide
 
-open PolyVerif.Spec.GbStrict (singleSpaced spacedFrom wfRef wfRefIndex refNum) in
-theorem refSpecs_lines : ∀ (refs : List Reference) (i : Nat), refs.all wfRef = true → refsFit i refs = true →
-    wfRefIndex i refs = true →
-    specsLines (refSpecs i refs) = GbLayout.refsLines i (refs.map toRRef) (refs.map refLayout)
-  | [], _, _, _, _ => rfl
-  | r :: rs, i, hw, hf, hidx => by
-    simp only [wfRefIndex, Bool.and_eq_true, beq_iff_eq] at hidx
-    have hnum : refNum i r = Location.itoa (i + 1) := by
-      unfold refNum
-      split
-      · rfl
-      · exact hidx.1
-    simp only [List.all_cons, Bool.and_eq_true] at hw
-    simp only [refsFit, Bool.and_eq_true, decide_eq_true_eq] at hf
-    obtain ⟨hfit, hrest⟩ := hf
-    have hr := hw.1
-    simp only [wfRef, Bool.and_eq_true] at hr
-    obtain ⟨⟨⟨⟨⟨⟨h1, h2⟩, h3⟩, h4⟩, h5⟩, h6⟩, _⟩ := hr
-    have hpr : Plain r.range ∧ NoNl r.range := by
-      by_cases hrne : r.range = []
-      · rw [hrne]; exact ⟨(fun c hc _ => by cases hc), (fun c hc => by cases hc)⟩
-      · have hs : spacedFrom false r.range = true := by simpa [singleSpaced, hrne] using h1
-        refine ⟨plain_of_spacedFrom _ false hs, ?_⟩
-        intro c hc e
-        subst e
-        have := plain_of_spacedFrom _ false hs _ hc (by decide)
-        exact absurd this (by decide)
-    have hplain : Plain (Location.itoa (i + 1) ++ "  ".toList ++ r.range) := by
-      intro c hc hsp
-      rcases List.mem_append.mp hc with hc | hc
-      · rcases List.mem_append.mp hc with hc | hc
-        · have := isSpace_of_isDig (Lemmas.Location.itoa_digits _ c hc)
-          rw [this] at hsp; exact absurd hsp (by simp)
-        · have e2 : "  ".toList = [' ', ' '] := by decide
-          rw [e2] at hc
-          simp only [List.mem_cons, List.not_mem_nil, or_false, or_self] at hc
-          exact hc
-      · exact hpr.1 c hc hsp
-    have hnonl : NoNl (Location.itoa (i + 1) ++ "  ".toList ++ r.range) :=
-      NoNl.append (NoNl.append noNl_of_plain_digits (noNl_lit _ (by decide))) hpr.2
-    have hlen : (Location.itoa (i + 1) ++ "  ".toList ++ r.range).length ≤ 68 := by
-      have e2 : ("  ".toList).length = 2 := by decide
-      simp only [List.length_append, e2]
-      omega
-    have e2 : "  ".toList = [' ', ' '] := by decide
-    have hheadLines : blockLines "REFERENCE".toList (Location.itoa (i + 1) ++ "  ".toList ++ r.range)
-        = GbLayout.refHeadLines i (toRRef r) (refLayout r) := by
-      rw [blockLines_short _ hplain hnonl hlen]
-      unfold GbLayout.refHeadLines
-      by_cases hrne : r.range = []
-      · rw [if_pos ⟨rfl, by simp [toRRef, hrne]⟩, hrne, ofNat_eq_itoa]
-        simp [GbLayout.block, GbLayout.wrapText, wrapAux_no_breaks, GbLayout.hang, e2]
-      · rw [if_neg (by simp [toRRef, hrne])]
-        have hhead : GbLayout.refHead i (toRRef r) = Location.itoa (i + 1) ++ "  ".toList ++ r.range := by
-          unfold GbLayout.refHead toRRef
-          simp only [hrne, if_false, ofNat_eq_itoa]
-          rw [e2, List.append_assoc]
-        rw [hhead]
-        rfl
-    rw [refSpecs, hnum, specsLines_cons, refSpecs_lines rs (i + 1) hw.2 hrest hidx.2]
-    simp only [List.map_cons, GbLayout.refsLines, List.headD_cons, List.tail_cons]
-    congr 1
-    unfold specLines GbLayout.refLines
-    simp only [refSubs, subLines_append, subLines_optSub _ h2, subLines_optSub _ h3, subLines_optSub _ h4,
-      subLines_optSub _ h5, subLines_optSub _ h6, hheadLines]
-    rfl
-
 open PolyVerif.Spec.GbStrict (singleSpaced wfOther sortedEntries) in
 theorem otherSpecs_lines (m : List (Str × Str)) : ∀ keys : List Str, (∀ k ∈ keys, singleSpaced (lookupD m k) = true) →
     specsLines (otherSpecs m keys)
@@ -588,70 +521,6 @@ theorem header_glue (b1 b2 b3 b4 b5 b6 R E : List Str) :
     b1 ++ (b2 ++ (b3 ++ (b4 ++ (b5 ++ b6 ++ [])))) ++ R ++ E = b1 ++ b2 ++ b3 ++ b4 ++ b5 ++ b6 ++ R ++ E := by
   simp
 
-open PolyVerif.Spec.GbStrict (wfSeq wfLayout singleSpaced wfOther sortedEntries wfFeature) in
-/-- the lines `Build` writes are the C01 layout of the record it was given, with `Build`'s choices -/
-theorem lines_build_eq_layout (x : Sequence) (h : covered x = true) :
-    lines (build x MapOrders.id) = PolyVerif.GbLayout.layout (toRec x) (polyLayout x) := by
-  simp only [covered, Bool.and_eq_true] at h
-  obtain ⟨⟨hwf, hfit⟩, _⟩ := h
-  have hlay : wfLayout x = true := by
-    simp only [wfSeq, Bool.and_eq_true] at hwf
-    exact hwf.1.1.1.1
-  have hw := hlay
-  simp only [wfLayout, Bool.and_eq_true, bne_iff_ne, ne_eq, decide_eq_true_eq] at hw
-  obtain ⟨⟨⟨⟨⟨⟨⟨⟨⟨⟨⟨⟨⟨_, hd⟩, ha⟩, hv⟩, hk⟩, hs⟩, ho⟩, hrefs⟩, _⟩, hother⟩, hfeat⟩, hne⟩, _⟩, _⟩ := hw
-  have k1 : "DEFINITION".toList = ['D', 'E', 'F', 'I', 'N', 'I', 'T', 'I', 'O', 'N'] := by decide
-  have k2 : "ACCESSION".toList = ['A', 'C', 'C', 'E', 'S', 'S', 'I', 'O', 'N'] := by decide
-  have k3 : "VERSION".toList = ['V', 'E', 'R', 'S', 'I', 'O', 'N'] := by decide
-  have k4 : "KEYWORDS".toList = ['K', 'E', 'Y', 'W', 'O', 'R', 'D', 'S'] := by decide
-  have k5 : "SOURCE".toList = ['S', 'O', 'U', 'R', 'C', 'E'] := by decide
-  have k6 : ' ' :: ' ' :: "ORGANISM".toList = [' ', ' ', 'O', 'R', 'G', 'A', 'N', 'I', 'S', 'M'] := by decide
-  have k7 : featHdr = PolyVerif.GbLayout.featuresHeader := by decide
-  have k8 : "ORIGIN".toList = ['O', 'R', 'I', 'G', 'I', 'N'] := by decide
-  have k9 : "//".toList = ['/', '/'] := by decide
-  have hftype : ∀ f ∈ x.features, f.type.length ≤ 15 := by
-    intro f hf
-    have := List.all_eq_true.mp hfeat f hf
-    simp only [wfFeature, Bool.and_eq_true, decide_eq_true_eq] at this
-    exact this.1.1.1.2
-  have hhdr : specsLines (headerSpecs x (sortStrings (x.metadata.other.map Prod.fst)))
-      = PolyVerif.GbLayout.block "DEFINITION".toList x.metadata.definition (breaks x.metadata.definition)
-        ++ PolyVerif.GbLayout.block "ACCESSION".toList x.metadata.accession (breaks x.metadata.accession)
-        ++ PolyVerif.GbLayout.block "VERSION".toList x.metadata.version (breaks x.metadata.version)
-        ++ PolyVerif.GbLayout.block "KEYWORDS".toList x.metadata.keywords (breaks x.metadata.keywords)
-        ++ PolyVerif.GbLayout.block "SOURCE".toList x.metadata.source (breaks x.metadata.source)
-        ++ PolyVerif.GbLayout.block (' ' :: ' ' :: "ORGANISM".toList) x.metadata.organism (breaks x.metadata.organism)
-        ++ PolyVerif.GbLayout.refsLines 0 (x.metadata.references.map toRRef) (x.metadata.references.map refLayout)
-        ++ PolyVerif.GbLayout.extrasLines (sortedEntries x.metadata.other)
-            ((sortedEntries x.metadata.other).map fun kv => breaks kv.2) := by
-    have hidx : PolyVerif.Spec.GbStrict.wfRefIndex 0 x.metadata.references = true := by
-      simp only [wfSeq, Bool.and_eq_true] at hwf
-      exact hwf.1.1.2
-    rw [headerSpecs, specsLines_append, specsLines_append, refSpecs_lines _ 0 hrefs hfit hidx,
-      otherSpecs_lines _ _ (fun k _ => lookupD_singleSpaced _ hother k)]
-    rw [specsLines_cons, specsLines_cons, specsLines_cons, specsLines_cons, specsLines_cons, specsLines_nil,
-      specLines_nosub, specLines_nosub, specLines_nosub, specLines_nosub, specLines_onesub,
-      blockLines_eq_block _ hd, blockLines_eq_block _ ha, blockLines_eq_block _ hv, blockLines_eq_block _ hk,
-      blockLines_eq_block _ hs, blockLines_eq_block _ ho]
-    simp only [sortedEntries, List.map_map, Function.comp_def]
-    exact header_glue _ _ _ _ _ _ _ _
-  rw [build_lines x hlay, hhdr, featsLines_eq _ hftype, origin_eq hne, list_glue]
-  rw [layout_plain (toRec x) (polyLayout x) rfl rfl rfl rfl rfl rfl]
-  rw [← locusLine_eq x, k1, k2, k3, k4, k5, k6, k7, k8, k9]
-  rfl
-
-/-- the parser model, run on what `Build` writes, returns what C01's abstract record states -/
-theorem parse_build_covered (x : Sequence) (o : MapOrders) (h : covered x = true) :
-    Genbank.parse (build x o) = .ok (PolyVerif.GbLayout.toSequence (toRec x)) := by
-  have hwf : PolyVerif.GbLayout.wf (toRec x) = true := by
-    simp only [covered, Bool.and_eq_true] at h
-    exact h.2
-  rw [build_order_irrelevant x o MapOrders.id]
-  unfold Genbank.parse
-  rw [show (['\n'] : Str) = ['\n'] from rfl, split_nl_eq_lines, lines_build_eq_layout x h]
-  have := Lemmas.Genbank.parseLoop_layout (toRec x) (polyLayout x) [] hwf (by simp)
-  simpa using this
-
 open PolyVerif.Spec.GbStrict (wfSeq wfRefIndex sortedEntries) in
 theorem refs_approx : ∀ (refs : List Reference) (i : Nat), wfRefIndex i refs = true →
     listApprox refApprox refs (PolyVerif.GbLayout.toRefs i (refs.map toRRef)) = true
@@ -668,29 +537,5 @@ theorem feats_approx : ∀ fs : List Feature,
   | f :: fs => by
     simp only [List.map_cons, listApprox, Bool.and_eq_true, feats_approx fs, and_true]
     simp [featApprox, toRFeature, PolyVerif.GbLayout.toFeature]
-
-open PolyVerif.Spec.GbStrict (wfSeq wfRefIndex) in
-/-- … and that is the record the writer was given -/
-theorem approx_covered (x : Sequence) (h : covered x = true) :
-    approx x (PolyVerif.GbLayout.toSequence (toRec x)) = true := by
-  simp only [covered, Bool.and_eq_true] at h
-  obtain ⟨⟨hwf, _⟩, _⟩ := h
-  have hidx : wfRefIndex 0 x.metadata.references = true := by
-    simp only [wfSeq, Bool.and_eq_true] at hwf
-    exact hwf.1.1.2
-  have hnb : (x.metadata.locus.circular && x.metadata.locus.linear) = false := by
-    simp only [wfSeq, Bool.and_eq_true, Bool.not_eq_true'] at hwf
-    exact hwf.1.1.1.2
-  have hc : ((if x.metadata.locus.circular = true then some PolyVerif.GbLayout.Topology.circular
-        else if x.metadata.locus.linear = true then some PolyVerif.GbLayout.Topology.linear else none)
-          == some PolyVerif.GbLayout.Topology.circular) = x.metadata.locus.circular := by
-    cases x.metadata.locus.circular <;> cases x.metadata.locus.linear <;> decide
-  have hl : ((if x.metadata.locus.circular = true then some PolyVerif.GbLayout.Topology.circular
-        else if x.metadata.locus.linear = true then some PolyVerif.GbLayout.Topology.linear else none)
-          == some PolyVerif.GbLayout.Topology.linear) = x.metadata.locus.linear := by
-    cases hc' : x.metadata.locus.circular <;> cases hl' : x.metadata.locus.linear <;> simp_all <;> decide
-  unfold approx PolyVerif.GbLayout.toSequence PolyVerif.GbLayout.toLocus toRec
-  simp only [Bool.and_eq_true, beq_iff_eq, hc, hl, refs_approx _ 0 hidx, feats_approx, and_true,
-    beq_self_eq_true]
 
 end PolyVerif.Lemmas.GbRoundTrip
